@@ -2,7 +2,7 @@
    Model: Model/Metadata.v (isReservedHeader, isWhitelistedHeader, decodeBinHeader,
    encodeBinHeader, newIncomingContext, setOutgoingHeader of larking/grpc.go; net/http's trailer
    delivery rule is a modelled library fact). *)
-From Larking Require Import Base.GoSem Base.B64 Model.Metadata Proofs.MetadataProofs.
+From Larking Require Import Base.GoSem Base.B64 Model.Metadata Proofs.MetadataProofs Model.TrailerBlock Proofs.TrailerBlockProofs.
 
 (* the metadata a handler sees is exactly: every non-reserved request header, key lower-cased,
    all values in order, -bin values base64-decoded *)
@@ -47,6 +47,32 @@ Theorem C14_trailers_arrive : forall declared h k vs,
   In (trailer_prefix ++ k, vs) h -> In (k, vs) (delivered_trailers declared h).
 Proof. exact prefixed_trailer_delivered. Qed.
 Print Assumptions C14_trailers_arrive.
+
+(* ---- the gRPC-web trailer block (Model/TrailerBlock.v): web.go writes the trailers into the body with net/http's
+   Header.Write; a gRPC-web client reads that text line by line ---- *)
+
+(* no field can be forged through a value: whatever bytes a handler puts into its trailer values -- line breaks followed
+   by "grpc-status: 13" included -- the client reads back exactly the fields that were written, one per value, in order *)
+Theorem C14_trailer_block_no_injection : forall l, Forall (fun kv => key_ok (fst kv)) l ->
+  parse_block (write_block l) = map (fun kv => Some (fst kv, wire_value (snd kv))) l.
+Proof. exact parse_write. Qed.
+Print Assumptions C14_trailer_block_no_injection.
+
+(* what travels of a value: no line break ever, and the value itself when it has none and no blank space at its ends *)
+Theorem C14_trailer_value_single_line : forall v, forallb (fun c => negb (is_nl c)) (wire_value v) = true.
+Proof. exact wire_value_no_nl. Qed.
+Print Assumptions C14_trailer_value_single_line.
+
+Theorem C14_trailer_value_faithful : forall v, forallb (fun c => negb (is_nl c)) v = true ->
+  match v with c :: _ => is_ws c = false | [] => True end ->
+  match rev v with c :: _ => is_ws c = false | [] => True end -> wire_value v = v.
+Proof. exact wire_value_id. Qed.
+Print Assumptions C14_trailer_value_faithful.
+
+Example forged_trailer_value :   (* x-t: "bye\r\ngrpc-status: 13" arrives as one field "bye  grpc-status: 13" *)
+  parse_block (write_block [([120;45;116], [98;121;101;13;10;103;114;112;99;45;115;116;97;116;117;115;58;32;49;51])])%N
+  = [Some ([120;45;116], [98;121;101;32;32;103;114;112;99;45;115;116;97;116;117;115;58;32;49;51])%N].
+Proof. vm_compute. reflexivity. Qed.
 
 Example reserved_and_framing :
   is_reserved k_grpc_status = true /\ is_framing k_trailer = true /\ is_reserved k_trailer = false /\
